@@ -194,6 +194,9 @@ def run(ctx):
 
 LATEX_ATOMS = ['$', '#', '{', '}', '&', '_', '%', '^', '\\', '~', '\\\\', '\\{', '\\}', '\\$', '$$', '{}', '}{', '%\n', ' ', 'a', 'x_1', 'e^x', '50%', '#1', 'A&B',
                '\\end{document}', '\\end{lstlisting}', '\\begin{x}', '\\input{f}', '\\verb|x|', '|', '!', '"', "'", '=', '+', ']', '[', '`', '\n',
+               # compatibility forms of the special characters (full-width, small, vertical): ordinary text, whatever normalisation would do
+               '\uff04', '\uff03', '\uff5b', '\uff5d', '\uff06', '\uff3f', '\uff05', '\uff3e', '\uff3c', '\ufe5b', '\ufe5c', '\ufe5f', '\ufe60', '\ufe69', '\ufe6a', '\ufe68',
+               '\uff3cend\uff5bdocument\uff5d',
                # URL-ish pieces: text that is already percent-encoded, query strings, fragments
                '%20', '%7B', '%5C', 'a%20b', '?q=1&r=2', '#frag', '/p/', 'http://h/']
 
